@@ -208,7 +208,7 @@ fn step_write(q: usize) {
         return;
     }
     unsafe { model::LEDGER.cnt[q] += 1 };
-    e.storage.unwrap().raw().store(model::addr(q) as *mut Obj, SeqCst);
+    e.storage.unwrap().raw().store(model::ptr(q) as *mut Obj, SeqCst);
     passed_through(q);
     e.actions += 1;
 }
